@@ -293,7 +293,7 @@ def stage_numbers(chk, n):
             chk.count("numeric:negative-upper-bound+multipleOf" + (":exact-multiple" if upper % s["multipleOf"] == 0 else ":not-a-multiple"))
         same = impl == mod
         if not same:
-            legacy = [[popt(v), d] for v, d in m[4]]  # Coq prints (.., flags, (l, o)) with the last pair parenthesised
+            legacy = [[popt(v), d] for v, d in m[4][0]]  # Coq prints (.., flags, (l, o)) with the last pair parenthesised
             if impl["positive"][0] == legacy and legacy != mod["positive"][0]:
                 chk.count("numeric:behaves-like-the-planner-before-0b606a31")
                 stats_legacy.append(s)
